@@ -125,6 +125,14 @@ def _spec_worker(args):
                 for rule in list(spec):
                     for ch in rule.children:
                         spec.get_rule(ch)
+            # the documented contract is from_dict(x.to_jsonable()) == x: also without the detour through JSON text (the
+            # loader consumes the dictionary it is given), and dumping must still work afterwards
+            try:
+                direct = CombinatorialSpecification.from_dict(spec.to_jsonable())
+                if not direct == spec:
+                    out["problems"].append(("spec-direct-roundtrip-not-equal", "after counting" if touch else "fresh"))
+            except Exception as exc:  # noqa: BLE001
+                out["problems"].append(("spec-direct-roundtrip-raises", specrun.exc_info(exc)))
             j = rt(spec.to_jsonable())
             if sorted(j) != ["root", "rules"] or not isinstance(j["rules"], list):  # the layout modelled by specToJ (JsonSpec.lean)
                 out["layout"] = f"specification JSON has keys {sorted(j)}"
